@@ -23,6 +23,12 @@
   (`_writable`, via the serialiser's own check `namesWritable`), the prefixes added are bound nowhere
   in scope of the element nor declared in its subtree (`_fresh_prefixes`), a second call is the
   identity (`_idem`).
+
+  Last section (`C10_repair_representable`, `C10_repair_roundtrip`, `_total`, `_fragment`): the clause
+  "serialisation succeeds and reparses deep-equal" as a corollary of the closed loop C01_roundtrip: the
+  call keeps a document inside the C01 domain `Representable` (of the grown tables), so the text the
+  repaired document serialises to parses back to exactly the repaired tree, which is deep_equal to the
+  tree before the call.
 -/
 import XotModel.Lemmas.FStack
 import XotModel.Lemmas.Scope10
@@ -33,6 +39,8 @@ import XotModel.Lemmas.RepairFuel
 import XotModel.Lemmas.RepairKeepTop
 import XotModel.Lemmas.RepairValid
 import XotModel.Lemmas.SerResolveTop
+import XotModel.Lemmas.RepairRoundTripDoc
+import XotModel.Props.C01
 
 namespace XotModel.Props
 open XotModel
@@ -852,5 +860,151 @@ example :
     (([[(1, 1), (5, 2)], [(1, 1)]], [0, 1], Output.startTagOpen 1) ∈
         stackTrace xmlEscapers env {} t (initStack t []) (genOutputs t [])) ∧
       resolveElementName (framesAlong t [0, 1] ++ [[(1, 1)]]) (some 5) = some 2 := by decide
+
+/-! ## "… serialisation succeeds and reparses deep-equal" (corollaries of C01_roundtrip)
+
+`Representable env t` (Model/SerTokens.lean, decidable) is the C01 domain; it does not ask that names be
+writable — that is what the call establishes.  One hypothesis on the tables is added:
+`Repair.nameTableOK env` (decidable; Lemmas/RepairRoundTrip.lean): the namespace of every registered name
+has an XML-expressible URI (XML Chars, non-empty unless it is the no-namespace id).  It is needed: a
+`Representable` tree may hold an element whose namespace URI is U+0001 (nothing declares it), and the
+call would add `xmlns:n0="&#x1;"`, which no XML parser accepts. -/
+
+section RepairRoundTrip
+open XotModel.Repair
+
+/-- The call on the root of a document keeps it inside the C01 domain of the tables it leaves: it only
+    adds namespace nodes whose prefix `n{k}` is an NCName other than `xmlns` and whose namespace is a
+    name's namespace other than none / XML, and `xmlns=""`; per element the prefixes stay pairwise
+    distinct, namespace nodes stay in front; nothing else changes (`xml:id` values, text, names).  Of the
+    tables only the prefix table grows, by appending new strings. -/
+theorem C10_repair_representable (env : Env) (t : Tree) (hr : Representable env t = true)
+    (htab : nameTableOK env = true) (env' : Env) (t' : Tree)
+    (h : createMissingPrefixes env t [] = .ok (env', t')) :
+    Representable env' t' = true ∧ nameTableOK env' = true ∧ env'.names = env.names ∧
+      env'.namespaces = env.namespaces ∧ ∃ e, env'.prefixes = env.prefixes ++ e := by
+  obtain ⟨e, h1, h2⟩ := createMissingPrefixes_representable env t hr htab env' t' h
+  exact ⟨h1, h2, e.names, e.namespaces, e.ext⟩
+
+/-- The same for a call on an ELEMENT anywhere in a representable document (the whole document stays
+    in the domain) and for a fragment. -/
+theorem C10_repair_representable_element (env : Env) (t : Tree) (hr : Representable env t = true)
+    (htab : nameTableOK env = true) (path : Path) (name : Nat) (ks : List Tree)
+    (hat : t.at? path = some (.node (.element name) ks)) (env' : Env) (t' : Tree)
+    (h : createMissingPrefixes env t path = .ok (env', t')) :
+    Representable env' t' = true ∧ nameTableOK env' = true :=
+  (createMissingPrefixes_element_representable env t hr htab path name ks hat env' t' h).2
+
+theorem C10_repair_representable_fragment (env : Env) (t : Tree) (hr : RepresentableFragment env t = true)
+    (htab : nameTableOK env = true) (env' : Env) (t' : Tree)
+    (h : createMissingPrefixes env t [] = .ok (env', t')) :
+    RepresentableFragment env' t' = true ∧ nameTableOK env' = true :=
+  (createMissingPrefixes_representableFragment env t hr htab env' t' h).2
+
+/-- **C10_repair_roundtrip**: after `create_missing_prefixes(document)` on a representable document
+    (names need NOT be writable before): every name is writable, serialisation succeeds, the text parses
+    back — into the same `Xot`, interning nothing — to exactly the repaired tree, and that tree is
+    `deep_equal` to the tree BEFORE the call (it differs from it in namespace nodes only). -/
+theorem C10_repair_roundtrip (env : Env) (t : Tree) (hr : Representable env t = true)
+    (htab : nameTableOK env = true) (env' : Env) (t' : Tree)
+    (h : createMissingPrefixes env t [] = .ok (env', t')) :
+    namesWritable env' t' [] = some true ∧
+    ∃ s p, toXmlString env' t' [] = .ok s ∧ parseString .document env' s = .ok p ∧ p.tree = t' ∧
+      p.env = env' ∧ deepEqual p.tree t' = true ∧ deepEqual p.tree t = true ∧ stripNs p.tree = stripNs t := by
+  obtain ⟨e, hr', _⟩ := createMissingPrefixes_representable env t hr htab env' t' h
+  have hfrag : RepresentableFragment env t = true := by
+    simp only [Representable, Bool.and_eq_true] at hr; exact hr.1
+  have hfrag' : RepresentableFragment env' t' = true := by
+    simp only [Representable, Bool.and_eq_true] at hr'; exact hr'.1
+  obtain ⟨h1, h2, h3⟩ := allNodes_of_representableFragment hfrag
+  obtain ⟨_, _, h3'⟩ := allNodes_of_representableFragment hfrag'
+  have hok := envOk_of_envOK h1
+  have hw := C10_repair_document_writable env hok t [] t rfl h2 (kids_unique_of_allNodes h3)
+    (kids_leaves_of_allNodes h3 h2) env' t' h
+  have hframe := (C10_repair_document_frame env hok t [] t rfl h2 (kids_unique_of_allNodes h3) env' t' h).1
+  obtain ⟨s, p, k1, k2, k3, k4, k5⟩ := C01_roundtrip_writable env' t' hr' hw
+  refine ⟨hw, s, p, k1, k2, k3, k4, k5, ?_, by rw [k3]; exact hframe⟩
+  rw [k3]
+  exact deepEqual_of_stripNs h3' (allNodes_ext e t h3) hframe
+
+/-- Without "for a call that returns Ok": on a representable document the call SUCCEEDS (it has its one
+    top-level element), and then all of the above. -/
+theorem C10_repair_roundtrip_total (env : Env) (t : Tree) (hr : Representable env t = true)
+    (htab : nameTableOK env = true) :
+    ∃ env' t' s p, createMissingPrefixes env t [] = .ok (env', t') ∧ Representable env' t' = true ∧
+      namesWritable env' t' [] = some true ∧ toXmlString env' t' [] = .ok s ∧
+      parseString .document env' s = .ok p ∧ p.tree = t' ∧ p.env = env' ∧ deepEqual p.tree t = true := by
+  have hr0 := hr
+  simp only [Representable, Bool.and_eq_true] at hr0
+  obtain ⟨_, h2, _⟩ := allNodes_of_representableFragment hr0.1
+  have hel : elementKidIndices t.kids ≠ [] := by
+    have hs := hr0.2
+    simp only [singleRoot, Bool.and_eq_true, beq_iff_eq] at hs
+    have hne : t.kids.filter (fun k => k.value.isElement) ≠ [] := by
+      intro hn; rw [hn] at hs; simp at hs
+    obtain ⟨k, hk⟩ := List.exists_mem_of_ne_nil _ hne
+    obtain ⟨hk1, hk2⟩ := List.mem_filter.mp hk
+    obtain ⟨i, hi⟩ := List.getElem?_of_mem hk1
+    intro hnil
+    have : i ∈ elementKidIndices t.kids := mem_elementKidIndices.mpr ⟨k, hi, hk2⟩
+    rw [hnil] at this; cases this
+  obtain ⟨env', t', h⟩ := (C10_repair_never_panics env t [] t rfl).2.2.2 (Or.inr ⟨h2, hel⟩)
+  obtain ⟨hw, s, p, k1, k2, k3, k4, _, k6, _⟩ := C10_repair_roundtrip env t hr htab env' t' h
+  exact ⟨env', t', s, p, h, (C10_repair_representable env t hr htab env' t' h).1, hw, k1, k2, k3, k4, k6⟩
+
+/-- Fragments (any number of top-level elements, top-level text): the same with `parse_fragment`. -/
+theorem C10_repair_roundtrip_fragment (env : Env) (t : Tree) (hr : RepresentableFragment env t = true)
+    (htab : nameTableOK env = true) (env' : Env) (t' : Tree)
+    (h : createMissingPrefixes env t [] = .ok (env', t')) :
+    namesWritable env' t' [] = some true ∧
+    ∃ s p, toXmlString env' t' [] = .ok s ∧ parseString .fragment env' s = .ok p ∧ p.tree = t' ∧
+      p.env = env' ∧ deepEqual p.tree t = true := by
+  obtain ⟨e, hfrag', _⟩ := createMissingPrefixes_representableFragment env t hr htab env' t' h
+  obtain ⟨h1, h2, h3⟩ := allNodes_of_representableFragment hr
+  obtain ⟨_, _, h3'⟩ := allNodes_of_representableFragment hfrag'
+  have hok := envOk_of_envOK h1
+  have hw := C10_repair_document_writable env hok t [] t rfl h2 (kids_unique_of_allNodes h3)
+    (kids_leaves_of_allNodes h3 h2) env' t' h
+  have hframe := (C10_repair_document_frame env hok t [] t rfl h2 (kids_unique_of_allNodes h3) env' t' h).1
+  obtain ⟨s, hs⟩ := (C01_serialises env' t' hfrag').mpr hw
+  obtain ⟨p, k2, k3, k4, _⟩ := C01_roundtrip_fragment_identical env' t' hfrag' s hs
+  refine ⟨hw, s, p, hs, k2, k3, k4, ?_⟩
+  rw [k3]
+  exact deepEqual_of_stripNs h3' (allNodes_ext e t h3) hframe
+
+/-- Non-vacuity, closed (tables `c01Env` of Props/C01): `<!--h--><r k="v"><c/><t/></r>` with `r` in
+    `urn:a`, `c` in `urn:b`, nothing declared: representable, NOT writable; the call registers `n0`, `n1`
+    and the result serialises to `<!--h--><n0:r xmlns:n0="urn:a" xmlns:n1="urn:b" k="v"><n1:c/><t/></n0:r>`. -/
+def c10RtDoc : Tree :=
+  .node .document [.node (.comment ['h']) [],
+    .node (.element 2) [.node (.attribute 4 ['v']) [], .node (.element 3) [], .node (.element 5) []]]
+
+example : Representable c01Env c10RtDoc = true ∧ nameTableOK c01Env = true ∧
+    namesWritable c01Env c10RtDoc [] = some false ∧
+    (match createMissingPrefixes c01Env c10RtDoc [] with
+      | .ok (env', t') => some (env'.prefixes, toXmlString env' t' [])
+      | _ => none) =
+    some ([[], ['x', 'm', 'l'], ['p'], ['n', '0'], ['n', '1']],
+      .ok "<!--h--><n0:r xmlns:n0=\"urn:a\" xmlns:n1=\"urn:b\" k=\"v\"><n1:c/><t/></n0:r>".toList) := by
+  decide
+
+example : ∃ env' t' s p, createMissingPrefixes c01Env c10RtDoc [] = .ok (env', t') ∧
+    Representable env' t' = true ∧ namesWritable env' t' [] = some true ∧ toXmlString env' t' [] = .ok s ∧
+    parseString .document env' s = .ok p ∧ p.tree = t' ∧ p.env = env' ∧ deepEqual p.tree c10RtDoc = true :=
+  C10_repair_roundtrip_total c01Env c10RtDoc (by decide) (by decide)
+
+/-- `nameTableOK` is needed (closed): with a name in the namespace `U+0001` the document is representable,
+    the call succeeds, and the repaired document is no longer representable (`xmlns:n0="&#x1;"`). -/
+example :
+    let env : Env := { c01Env with namespaces := c01Env.namespaces ++ [[Char.ofNat 1]],
+                                   names := c01Env.names ++ [(['e'], 4)] }
+    let t : Tree := .node .document [.node (.element 6) []]
+    Representable env t = true ∧ nameTableOK env = false ∧
+    (match createMissingPrefixes env t [] with
+      | .ok (env', t') => some (Representable env' t')
+      | _ => none) = some false := by
+  decide
+
+end RepairRoundTrip
 
 end XotModel.Props
